@@ -38,7 +38,7 @@ func (c18) Plan(tier string) wk.Plan {
 	}
 	return wk.Plan{
 		Level: "exploration", Cases: n, Chunk: 1000, Configs: single("seq", 16), CaseBudget: 20,
-		Rule:        "even cases: a generated list/map tree (legal XML characters only; strings and keys with < > & ' \" ]]> comment/CDATA/entity look-alikes, blanks, =, non-name characters, leading/trailing blanks, CR/LF/TAB; every list/map representation) is exported with export.XML(); the strict encoding/xml token stream is walked against the value: element names only list/entry/map, a map key either as attribute (value = string form) or as entry with a key attribute, each key exactly once, entries in order, every scalar exactly its string form as character data (whitespace ignored only between elements). Odd cases: the tree, with Format (style string / style map / style closure incl. failing ones), Link and File wrappers and list sizes around maxListSize, goes through export.ToHtml (inline-style and class mode): no panic (errors are returned), strict well-formedness, element names within {table,tr,td,a,span}, attribute names within {style,class,href,target,colspan,download}, every string leaf/key/style string/link target/file name of the rendered part decodes back exactly from a text node or attribute value. Non-trivial = tree has a string or key with a markup character or leading/trailing white space; distinct by output.",
+		Rule:        "even cases: a generated list/map tree (legal XML characters only; strings and keys with < > & ' \" ]]> comment/CDATA/entity look-alikes, blanks, =, non-name characters, leading/trailing blanks, CR/LF/TAB; every list/map representation) is exported with export.XML(); the strict encoding/xml token stream is walked against the value: element names only list/entry/map, a map key either as attribute (value = string form) or as entry with a key attribute, each key exactly once, entries in order, every scalar exactly its string form as character data (whitespace ignored only between elements). Odd cases: the tree, with Format (style string / style map / style closure incl. failing ones), Link and File wrappers, values that fail while being rendered (lazy lists whose iteration fails, nested in items, rows, map values: ToHtml must return an error) and list sizes around maxListSize, goes through export.ToHtml (inline-style and class mode): no panic (errors are returned), strict well-formedness, element names within {table,tr,td,a,span}, attribute names within {style,class,href,target,colspan,download}, every string leaf/key/style string/link target/file name of the rendered part decodes back exactly from a text node or attribute value. Non-trivial = tree has a string or key with a markup character or leading/trailing white space; distinct by output.",
 		Floor:       500,
 		Assumptions: []string{"encoding/xml (Strict) is the standard parser; it normalises CR/CRLF in character data, so an unescaped CR is a violation", "for ToHtml only the rendered prefix of over-long lists is checked; float leaves are not compared textually (unicode formatting)"},
 	}
@@ -394,7 +394,96 @@ func collect(n *xnode, leaves *[]string, attrs *[][2]string, names map[string]bo
 	}
 }
 
+// c18HTMLFailing: a value that fails while it is rendered (a lazy list whose iteration fails, nested at a
+// position that is rendered) must make ToHtml return an error - not a panic, not a truncated document.
+func c18HTMLFailing(c *wk.Case) {
+	r := c.Rng
+	maxList := 3 + r.IntN(4)
+	inline := r.IntN(2) == 0
+	failing := func(at int) value.Value {
+		return value.NewListFromIterable(func(st funcGen.Stack[value.Value]) iterator.Producer[value.Value] {
+			return func(yield iterator.Consumer[value.Value]) {
+				for i := 0; i < at; i++ {
+					if !yield(value.Int(i), nil) {
+						return
+					}
+				}
+				yield(nil, fmt.Errorf("element %d cannot be computed", at))
+			}
+		})
+	}
+	simple := func() value.Value {
+		switch r.IntN(3) {
+		case 0:
+			return value.Int(r.IntN(100))
+		case 1:
+			return value.String(gen.RandString(r, gen.TreeOpts{XMLSafe: true}))
+		}
+		return value.NewList(value.Int(1), value.String("x"))
+	}
+	bad := failing(r.IntN(3))
+	mustFail := true
+	kind := r.IntN(6)
+	switch kind {
+	case 1:
+		bad = value.NewList(simple(), bad) // a cell of a row
+	case 2:
+		bad = value.NewMap(listMap.New[value.Value](2).Append("a", simple()).Append("b", bad))
+	case 3:
+		bad = value.NewList(value.NewList(simple(), bad), value.NewList(simple(), simple()))
+	case 4:
+		// a styled list whose style closure fails: reported if the closure is applied at that position
+		mustFail = false
+		bad = export.Format{Value: value.NewList(simple(), simple()), Format: value.Closure(funcGen.Function[value.Value]{Func: func(st funcGen.Stack[value.Value], cs []value.Value) (value.Value, error) {
+			return nil, fmt.Errorf("style closure fails")
+		}, Args: 1})}
+	}
+	n := 1 + r.IntN(maxList)
+	at := r.IntN(n)
+	items := make([]value.Value, n)
+	for i := range items {
+		items[i] = simple()
+	}
+	items[at] = bad
+	var v value.Value = value.NewList(items...)
+	if kind == 5 {
+		v = failing(r.IntN(3)) // the top-level list itself
+	}
+	var res template.HTML
+	var err error
+	var pan any
+	func() {
+		defer func() {
+			if r := recover(); r != nil {
+				pan = r
+			}
+		}()
+		res, _, err = export.ToHtml(v, maxList, nil, inline)
+	}()
+	c.Count("html_failing_values", 1)
+	what := fmt.Sprintf("kind %d, failing value at item %d of %d, maxListSize %d", kind, at, n, maxList)
+	if pan != nil {
+		c.Violation("html-panics", fmt.Sprintf("ToHtml panics on a failing value (%s): %v", what, pan), map[string]any{"what": what})
+		return
+	}
+	if err == nil && mustFail {
+		c.Violation("html-failure-not-reported", fmt.Sprintf("ToHtml returns no error although a rendered value fails (%s); output %q", what, truncate(string(res), 400)), map[string]any{"what": what, "html": string(res)})
+		return
+	}
+	if err == nil {
+		if _, perr := parseXML([]byte("<root>" + string(res) + "</root>")); perr != nil {
+			c.Violation("html-not-well-formed", fmt.Sprintf("ToHtml output is rejected by encoding/xml: %v; output %q", perr, truncate(string(res), 600)), map[string]any{"html": string(res), "error": perr.Error()})
+			return
+		}
+	}
+	c.NonTrivial(wk.Hash64("htmlfail", what))
+}
+
 func c18HTML(c *wk.Case) {
+	if c.Rng.IntN(10) == 0 {
+		c18HTMLFailing(c)
+		return
+	}
 	maxList := 1 + c.Rng.IntN(6)
 	inline := c.Rng.IntN(2) == 0
 	exp := &htmlExpect{}
